@@ -32,6 +32,10 @@ def make_engine(prop: str, steer: List[str]):
         from .engine_d import EngineD
 
         return EngineD("C16", steer)
+    if prop == "C20":
+        from .engine_e import EngineE
+
+        return EngineE("C20", steer)
     raise KeyError(prop)
 
 
@@ -51,6 +55,7 @@ NOT_APPLICABLE = {
 }
 
 ENGINES = [
+    {"name": "generator-world", "path": "sim/engine_e.py", "serves_properties": ["C20"], "kind_free_text": "seed search over the stream-dependent generators (each call twice under the same global seed) plus direct oracles for the deterministic generators and the aggregating constructor"},
     {"name": "io-world", "path": "sim/engine_d.py", "serves_properties": ["C16"], "kind_free_text": "export/import histories over a small path namespace on a simulated open() with buffering configurations and injected OSError at the k-th write/flush/seek/close"},
     {"name": "solver-world/presentation", "path": "sim/engine_c18.py", "serves_properties": ["C18"], "kind_free_text": "paired runs of every decomposition algorithm in the simulated world (seed, verbosity, clock, interpreter, call history, representation, scale, relabelling)"},
     {"name": "solver-world/gcp", "path": "sim/engine_c13.py", "serves_properties": ["C13"], "kind_free_text": "GCP samplers under seed search; histories of solves (incl. aborted ones) on one optimizer object with recording/faulting sampler proxy, simulated clock, differential vs. fresh optimizer"},
@@ -190,5 +195,25 @@ CHECKS = {
             "simulated": ["open() as seen by pyttb.export_data and pyttb.import_data (SimFS/SimFile)", "OSError injection at write/flush/seek/close", "buffering configuration", "pre-existing file contents"],
         },
         "assumptions": ["float64 values (the default format is specified for doubles)"],
+    },
+    "C20": {
+        "manifest": {
+            "engine": "generator-world",
+            "design_ref": "DESIGN.md section 3, engine E",
+            "level_text": "Seed search: the random generators (sptenrand, sptensor.from_function, tenrand, ktensor.from_function with a random function) are functions of the process-global numpy stream, which the harness seeds per call from its seed tree; every such call is made twice under the same seed (bit-identical result and identical stream state afterwards required) and judged for exact shape, well-formedness (distinct in-range integer subscripts, one value each), requested count / density incl. near saturation, and values being exactly what the (recording) function returned. The deterministic generators (tenones, tenzeros, tendiag, teneye, sptendiag, tensor.from_function) and sptensor.from_aggregator (arbitrary multiplicities and order, reducers sum/min/max/mean/prod/callables, zero results dropped) are checked by direct oracles in the same runs -- that part is plain generated-input checking and is labelled so.",
+            "level_note": "Trusted: harness' dict-based reference for aggregation and diagonals; numpy RNG seeding. For densities the floor or the ceiling of size*density is accepted. One recorded known finding (rejection loop gives up near saturation) is tolerated only where collisions are plausible (n(n-1)/(2 size) > 0.05).",
+            "technique": "deterministic simulation: seed search over the global random stream (paired same-seed calls) + direct oracles for deterministic generators",
+        },
+        "level": "exploration",
+        "quick": {"runs": 6000, "wall": 200},
+        "thorough": {"runs": 300000, "wall": 1200},
+        "chunk": 25,
+        "rule": (
+            "one case = one run of 6-20 generator calls, each under its own derived seed for the global numpy stream; "
+            "non-trivial = at least 3 calls checked; distinct = distinct digest of (steps, observations)."
+        ),
+        "state_measure": "hash of (generator, order, reducer, value function, density-or-count)",
+        "components": {"real": REAL_ALL, "simulated": ["np.random global stream seeded per call", "recording value functions passed to the generators"]},
+        "assumptions": ["floor or ceiling of size*density both accepted as the requested count"],
     },
 }
